@@ -237,8 +237,10 @@ class ProviderTap:
                 args = (args[0], buf)
             tap.depth += 1
             tap.cur_op = name
+            nev = len(tap.prov._events)                 # pylint: disable=protected-access
             try:
                 ret = orig(*args, **kwargs)
+                rec["ev"] = len(tap.prov._events) - nev     # provider events registered = the call was effective
                 if buf is not None:
                     rec["data"] = buf.getvalue()
                     real_out.write(rec["data"])
